@@ -276,16 +276,7 @@ def run(chk):
             chk.check(f"{v} is not None" in g, "R3", f"{B}:PdoMap.save | {v} only when set", save.loc(n.ast), f"written under {g}")
 
     # ------------------------------------------------------------------ R4 subscribe
-    sub = repo.func(B, "PdoMap.subscribe", "C09.R4")
-    fs = ff_for(chk, sub, "C09.R4")
-    calls = find_calls(sub.node, ".subscribe")
-    chk.floor("R4", len(calls), 1, "network.subscribe in PdoMap.subscribe")
-    for c in calls:
-        g = [src(e) for e, p in fs.facts_at(fs.stmt_of(c)) if p]
-        args = [src(a) for a in c.args]
-        chk.check("self.enabled" in g, "R4", f"{B}:PdoMap.subscribe | only when enabled", sub.loc(c), f"subscribes under {g}")
-        chk.check(args == ["self.cob_id", "self.on_message"] and dotted(c.func) == "self.pdo_node.network.subscribe", "R4",
-                  f"{B}:PdoMap.subscribe | what", sub.loc(c), f"{src(c)}; expected network.subscribe(self.cob_id, self.on_message)")
+    shared.pdo_subscribe(chk, "R4")
     wit = must_pass(fr.cfg, lambda n: n.kind == "stmt" and isinstance(n.ast, ast.Expr) and isinstance(n.ast.value, ast.Call)
                     and dotted(n.ast.value.func) == "self.subscribe")
     chk.check(wit is None, "R4", f"{B}:PdoMap.read | ends in subscribe()", read.loc(), f"a normal path of read() does not subscribe: {path_text(wit) if wit else ''}")
